@@ -66,6 +66,7 @@ func (server *SugarDB) getHandlerFuncParams(ctx context.Context, cmd []string, c
 		SwapDBs:               server.SwapDBs,
 		GetServerInfo:         server.GetServerInfo,
 		DeleteKey: func(ctx context.Context, key string) error {
+			verifhook.Point("keyspace.prim.enter")
 			verifhook.Point("keyspace.deleteKey")
 			server.storeLock.Lock()
 			defer server.storeLock.Unlock()
